@@ -826,3 +826,68 @@ Proof.
       assert (0 < (1 + u32) ^ (2 * n)) by (apply pow_lt; lra).
       apply Rmult_le_pos; [apply Rmult_le_pos; lra|lra].
 Qed.
+
+Lemma bernoulli_1m : forall x m, 0 <= x <= 1 -> 1 - INR m * x <= (1 - x) ^ m.
+Proof.
+  intros x m Hx. induction m as [|m IH].
+  - simpl. lra.
+  - rewrite S_INR. simpl pow.
+    assert (H1 : (1 - x) * (1 - INR m * x) <= (1 - x) * (1 - x) ^ m) by (apply Rmult_le_compat_l; lra).
+    assert (H2 : 0 <= INR m) by apply pos_INR. nra.
+Qed.
+
+Lemma pow_1p_le_inv_1m : forall x m, 0 <= x < 1 -> (1 + x) ^ m <= / (1 - x) ^ m.
+Proof.
+  intros x m Hx.
+  assert (Hp : 0 < (1 - x) ^ m) by (apply pow_lt; lra).
+  apply Rmult_le_reg_r with ((1 - x) ^ m); [exact Hp|].
+  rewrite Rinv_l by lra. rewrite <- Rpow_mult_distr.
+  apply Rle_trans with (1 ^ m); [apply pow_incr; split; nra|rewrite pow1; lra].
+Qed.
+
+(* numeric form of dem_R_bound: (1+u)^(2n+3) / (1-u)^n <= 1 / (1 - (3n+3) u); at most 65536 cells: <= 1 + 1/64 *)
+Lemma dem_bound_numeric : forall n : nat, (Z.of_nat n <= 65536)%Z ->
+  (1 + u32) ^ (2 * n + 3) / (1 - u32) ^ n <= 1 + / 64.
+Proof.
+  intros n Hn.
+  assert (Hu : u32 = / 16777216) by apply bpow_m24.
+  assert (Hu1 : 0 <= u32 < 1) by (rewrite Hu; lra).
+  set (a := (1 - u32) ^ n). set (b := (1 - u32) ^ (2 * n + 3)).
+  assert (Ha : 0 < a) by (apply pow_lt; lra). assert (Hb : 0 < b) by (apply pow_lt; lra).
+  assert (Hab : a * b = (1 - u32) ^ (3 * n + 3)).
+  { unfold a, b. rewrite <- pow_add. f_equal. lia. }
+  pose proof (pow_1p_le_inv_1m u32 (2 * n + 3) Hu1) as HP. fold b in HP.
+  pose proof (bernoulli_1m u32 (3 * n + 3) ltac:(lra)) as HB. rewrite <- Hab in HB.
+  assert (HN : INR (3 * n + 3) <= 196611).
+  { rewrite INR_IZR_INZ. apply IZR_le. lia. }
+  assert (HN0 : 0 <= INR (3 * n + 3)) by apply pos_INR.
+  (* a * b >= 1 - 196611 u >= 64/65 *)
+  assert (Hab2 : 64 / 65 <= a * b) by (rewrite Hu in HB; nra).
+  unfold Rdiv. apply Rle_trans with (/ b * / a).
+  - apply Rmult_le_compat_r; [apply Rlt_le, Rinv_0_lt_compat; exact Ha|exact HP].
+  - rewrite <- Rinv_mult. rewrite (Rmult_comm b a).
+    apply Rle_trans with (/ (64 / 65)).
+    + apply Rinv_le_contravar; [lra|exact Hab2].
+    + lra.
+Qed.
+
+Lemma dem_R_bound_65536 : forall (ds vs : list R) (n k : nat),
+  Forall (fun d => fmt32 d /\ 1 <= d) ds -> Forall (fun d => fmt32 d /\ 1 <= d) vs ->
+  ds <> [] -> sum_R vs <= sum_R ds -> (length ds <= n)%nat -> (length vs <= n)%nat -> (Z.of_nat n <= 65536)%Z ->
+  acc_R 0 ds <= bpow radix2 100 ->
+  0 <= dem_R ds vs k <= 1 + / 64.
+Proof.
+  intros ds vs n k Hds Hvs Hne Hs Ln Lv Hn Hov.
+  destruct (dem_R_bound ds vs n k Hds Hvs Hne Hs Ln Lv Hov) as [H0 H1].
+  split; [exact H0|]. eapply Rle_trans; [exact H1|]. apply dem_bound_numeric. exact Hn.
+Qed.
+
+(* the hypotheses of dem_R_bound are satisfiable (one cell of demand 1) *)
+Lemma dem_R_bound_hyps_example :
+  Forall (fun d => fmt32 d /\ 1 <= d) [1] /\ [1] <> [] /\ sum_R [1] <= sum_R [1] /\
+  acc_R 0 [1] <= bpow radix2 100.
+Proof.
+  split; [|split; [discriminate|split; [apply Rle_refl|]]].
+  - constructor; [|constructor]. split; [|lra]. change (fmt32 (bpow radix2 0)). apply fmt32_bpow. lia.
+  - unfold acc_R. simpl. rewrite Rplus_0_l, rnd32_1. change (bpow radix2 0 <= bpow radix2 100). apply bpow_le. lia.
+Qed.
